@@ -53,6 +53,25 @@ var MethodCallPoint = make(map[string][]CallPoint)
 var MethodCalleePoint = make(map[string][]CalleePoint)
 var SpecialCodeComments = []SpecialCodeComment{}
 
+// compareSigTieBreak orders signatures that agree on method, class and frame
+// (a class method and an instance method of the same name, overloads of a
+// builtin method), so that listings do not depend on map iteration order.
+func compareSigTieBreak(a, b Sig) int {
+	if a.IsStatic != b.IsStatic {
+		if !a.IsStatic {
+			return -1
+		}
+		return 1
+	}
+	if a.Detail < b.Detail {
+		return -1
+	}
+	if a.Detail > b.Detail {
+		return 1
+	}
+	return 0
+}
+
 func GetSortedTSignatures() []Sig {
 	sortedSignatures := make([]Sig, 0, len(TSignatures))
 
@@ -79,7 +98,7 @@ func GetSortedTSignatures() []Sig {
 		if a.Frame > b.Frame {
 			return 1
 		}
-		return 0
+		return compareSigTieBreak(a, b)
 	})
 
 	return sortedSignatures
@@ -111,7 +130,7 @@ func GetSortedTSignaturesByClass() []Sig {
 		if a.Frame > b.Frame {
 			return 1
 		}
-		return 0
+		return compareSigTieBreak(a, b)
 	})
 
 	return sortedSignatures
